@@ -221,6 +221,10 @@ def replay_case(ck, case, pids):
         return
     if case.get('kind') == 'lut':
         return
+    if case.get('kind') == 'chains':
+        g, o = case['gen'], case['opts']
+        judge_chains(ck, [chains_record(g[0], g[1], g[2], g[3], g[4], o['reuse'], o['strip'], o['cb'])], pids)
+        return
     mt = case['input']
     c = gen.circuit_from_state(mt['circuit'])
     st = lsim.struct(c)
@@ -253,6 +257,9 @@ def main(tier=None, replay=None):
     circuits = make_circuits(ck, rnd, ck.pick(150, 1000)) + tlc_circuits(ck, rnd, ck.pick(160, 4000))
     recs, meta = records(ck, rnd, circuits, (2,))
     judge(ck, recs, meta, (PID,))
+    # scale: more than 65 536 signals / memory locations in one simulator, judged chain by chain
+    crecs = [chains_record(rnd.randrange(1 << 30), 2, 34, 1000, lanes=rnd.choice([3, 5]), reuse=False, strip=False, use_cb=cb) for cb in ((True,) if not ck.thorough else (False, True, True))]
+    judge_chains(ck, crecs, (PID,))
     ops_model(ck, rnd, circuits)
     for mt in meta:
         ck.nontrivial.add(gen.digest(mt['circuit']))
@@ -271,3 +278,82 @@ def main(tier=None, replay=None):
     return ck.finish('one-of-each-primitive circuits (both styles), every connected-pin pattern of the variadic families, and seeded random '
                      'circuits (<=16 gates, all 33 primitives and alias kinds, forks, branch forks, DFF Q/QN, latches, open pins, dangling outputs) x '
                      'batch sizes 1..20 x {c_reuse} x {strip_forks} x {plain, callback} x cycles 1..4; ; plus implementation circuits of library cells simulated as they are, TLC-enumerated netlists (NetBuild.tla), batches of 257..70001 patterns with sampled lanes, circuits without state elements under cycle(); distinct by circuit digest')
+
+
+# ---- scale: one circuit made of long chains, judged chain by chain (ChainsT.tla) ----
+CHAIN_KINDS = [('buf1', 'BUF1', 0), ('inv1', 'INV1', 0), ('and2', 'AND2', 1), ('nand2', 'NAND2', 1), ('or2', 'OR2', 1), ('nor2', 'NOR2', 1),
+               ('xor2', 'XOR2', 1), ('xnor2', 'XNOR2', 1)]
+
+
+def chains_record(cseed, m, nchains, nstages, lanes=3, reuse=False, strip=False, use_cb=False, nside=3):
+    """Description -> real circuit (public API) -> real LogicSim -> captured value at the end of every chain."""
+    rnd = random.Random(cseed)
+    from kyupy.circuit import Circuit, Node, Line
+    c = Circuit('chains')
+    alpha = {2: [0, 1], 4: [0, 1, 2, 3], 8: list(range(8))}[m]
+    side_f = []
+    for k in range(nside):
+        f = Node(c, 's%d' % k)
+        c.io_nodes.append(f)
+        side_f.append(f)
+    desc = []
+    heads = []
+    for j in range(nchains):
+        f = Node(c, 'c%d' % j)
+        c.io_nodes.append(f)
+        heads.append(f)
+    tails = []
+    for j in range(nchains):
+        cur = heads[j]
+        ops = []
+        for t in range(nstages):
+            prim, kind, two = rnd.choice(CHAIN_KINDS)
+            g = Node(c, 'g%d_%d' % (j, t), kind)
+            Line(c, cur, (g, 0))
+            sd = 0
+            if two:
+                sd = rnd.randint(1, nside)
+                Line(c, side_f[sd - 1], (g, 1))
+            ops.append([prim, sd])
+            cur = Node(c, 'g%d_%d' % (j, t))
+            Line(c, g, cur)
+        o = Node(c, 'o%d' % j)
+        Line(c, cur, o)
+        tails.append(o)
+        desc.append(dict(ops=ops))
+    for o in tails:
+        c.io_nodes.append(o)
+    names = [n.name for n in c.s_nodes]
+    stim = [[rnd.choice(alpha) for _ in range(lanes)] for _ in names]
+    rec = dict(m=m, lanes=lanes, side=[stim[names.index('s%d' % k)] for k in range(nside)], chains=[], raised=False,
+               nlines=len(c.lines), opts=dict(reuse=reuse, strip=strip, cb=use_cb), gen=[cseed, m, nchains, nstages, lanes])
+    try:
+        s = lsim.run_logic(c, m, lanes, stim, reuse, strip, (lambda line, view: None) if use_cb else None, use_cb)
+        got = lsim.codes(s, 1, lanes)
+        rec['clen'] = int(s.c_len)
+        for j in range(nchains):
+            rec['chains'].append(dict(inp=stim[names.index('c%d' % j)], ops=desc[j]['ops'], got=got[names.index('o%d' % j)]))
+    except Exception as e:
+        rec.update(raised=True, err=repr(e)[:300])
+        rec['chains'] = [dict(inp=[0] * lanes, ops=[], got=[0] * lanes)]
+    return rec
+
+
+def judge_chains(ck, recs, pids):
+    r = ck.tlc_batch('ChainsT', 'ChainsT', traces=recs, label='T:ChainsT', per_shard=1, timeout=1500)
+    ck.require_clean(r)
+    ck.traces += len(recs)
+    ck.evaluations += sum(len(x['chains']) * x['lanes'] for x in recs)
+    for pid, tid, chn, clause in r.fails:
+        x = recs[tid - 1]
+        if pid not in pids:
+            continue
+        ck.violation('%s:chains:m%d:%s' % (clause, x['m'], gen.digest([x['opts'], x['nlines']])),
+                     '%s fails for chain %d of a circuit of %d chains x %d stages (%d lines, %d memory locations; m=%d, c_reuse=%s, strip_forks=%s, callback path=%s) %s' % (
+                         clause, chn, len(x['chains']), len(x['chains'][0]['ops']), x['nlines'], x.get('clen', -1), x['m'], x['opts']['reuse'], x['opts']['strip'], x['opts']['cb'], x.get('err', '')),
+                     dict(kind='chains', clause=clause, gen=x['gen'], opts=x['opts'], nlines=x['nlines']))
+    for x in recs:
+        ck.count('chain-circuits')
+        if x.get('clen', 0) > 65536:
+            ck.count('chain-circuits-beyond-16-bit-locations')
+    ck.need_cover(['chain-circuits-beyond-16-bit-locations'])
